@@ -28,7 +28,10 @@ def run_history(ctx, prop, seed, clients, nops, shape, binary='h', tag='c'):
                 if m.group(2) == 'BAD':
                     kind = {'lin': 'lin', 'txn': 'trace', 'crash': 'panic', 'final': 'wf', 'end': 'panic'}[m.group(1)]
                     detail = m.group(3).strip()
-                    fails.append(Failure(prop, kind, m.group(1) if kind != 'trace' else 'conc', detail[:400], replay=rep))
+                    where = m.group(1)
+                    if kind == 'trace':
+                        where, _, detail = detail.partition(' ')
+                    fails.append(Failure(prop, kind, where, detail[:400], replay=rep))
             m = re.match(r'^DONE ops=(\d+) txns=(\d+)', line)
             if m:
                 st['ops'], st['txns'] = int(m.group(1)), int(m.group(2))
